@@ -322,6 +322,7 @@ func (r *UnitRun) finish(st *State, vals []Val, n *ast.ReturnStmt) {
 	for i, rv := range res {
 		v := r.convertTo(st, vals[i], rv.typ)
 		bound[rv.name] = v
+		bound[fmt.Sprintf("res%d", i)] = v
 		if rv.obj != nil {
 			st.bind(rv.obj, v)
 		}
@@ -340,7 +341,7 @@ func (r *UnitRun) finish(st *State, vals []Val, n *ast.ReturnStmt) {
 	// (R) returned slices are fresh, returned references are fresh when declared so
 	for i, rv := range res {
 		v := bound[rv.name]
-		if v.K == KSlice && (r.unit.Public || r.unit.Returns == "fresh") {
+		if v.K == KSlice && r.unit.Returns != "alias" && r.unit.Returns != "lib" {
 			ok := v.S.Obj != nil && !v.S.Obj.param && v.S.Obj.own == OwnFresh
 			if v.S.Obj == nil && v.S.Len == "0" {
 				ok = true
@@ -356,6 +357,21 @@ func (r *UnitRun) finish(st *State, vals []Val, n *ast.ReturnStmt) {
 	for i, c := range r.unit.Ensures {
 		goal := r.specBool(env, c, "ensures of "+r.unit.Name)
 		r.oblige(st, "post", fmt.Sprintf("%d", i), goal, node, "postcondition: "+c.Text+" (at "+retSite+")", c.Tags)
+	}
+	if r.unit.Implements != "" {
+		au := r.prog.Units[r.unit.Implements]
+		b2 := map[string]Val{"self": st.ghost["self"]}
+		_, _, ares := au.paramNames()
+		for i, rp := range ares {
+			if i < len(res) {
+				b2[rp.Name] = bound[res[i].name]
+			}
+		}
+		envI := &SpecEnv{run: r, st: st, old: r.entry, bound: b2}
+		for i, c := range au.Ensures {
+			goal := r.specBool(envI, c, "ensures of "+au.Name)
+			r.oblige(st, "post", fmt.Sprintf("%s.%d", au.Name, i), goal, node, "function-type postcondition "+au.Name+": "+c.Text+" (at "+retSite+")", c.Tags)
+		}
 	}
 	// vacuity canary: the path to this return must be satisfiable
 	r.oblige(st, "canary", retSite, "false", node, "path to this return is reachable (must NOT be provable)", nil)
